@@ -296,7 +296,7 @@ class C18(DiffProperty):
             "with exponents -40..40 for the |delta|<=1 regime); runs of 65533..65537 and 131070.. points around the per-part "
             "limit; pairs of parts for join around the 65535 sums; values for code/real.  A case is non-trivial when it has a "
             "range and at least one crossing or a run over the limit; distinct = distinct case text (an E case stands for "
-            "5^depth sequences, counted in input_distribution.sequences)")
+            "5^depth sequences; the number of sequences of the run is appended below)")
     modelled = ("mptplot/values/linepart_linear.c, linepart_code.c, linepart_join.c and linepart::array::set/apply of "
                 "mpt++/linepart.cpp (both loops) transcribed in coq/C18/LinepartModel.v over exact rationals; uint16 fields are "
                 "written mod 2^16.  Not modelled: binary64 rounding (compared by the rule), NaN/infinite inputs, apply() with more "
